@@ -30,7 +30,8 @@ def scratch_root():
 
 
 def new_batch_dir(tag):
-    p = os.path.join(scratch_root(), "%s-%d-%d" % (tag, os.getpid(), time.time_ns() % 10**9))
+    # fixed-length name: path *lengths* reach FORD's heap layout through every path string
+    p = os.path.join(scratch_root(), "%s-%07d-%09d" % (tag, os.getpid() % 10**7, time.time_ns() % 10**9))
     os.makedirs(p)
     return p
 
